@@ -60,6 +60,9 @@ def build_plan(tier, nruns=None, seed=0):
             # (a third of the same-kind storms also get an injected fault: a caller
             #  interrupted while another one waits for it or shares its work)
             plan.append(("samekind", t.kind, (n_ + seed) % 3 == 0))
+            if t.gen is not None and (n_ + seed) % 3 != 0:
+                # the verifiers (where callers plausibly share or wait for work): both ways
+                plan.append(("samekind", t.kind, True))
         for t in tps:
             plan.append(("firstuse", t.kind, True))
         nrand = 1000
